@@ -109,7 +109,8 @@ Inductive answer :=
 | ASend (r : send_ans)
 | ACall (r : option errno)                 (* getsockopt(SO_SNDBUF) / setsockopt / setblocking *)
 | AAcc (r : acc_ans)
-| ASel (r w e h : list fdt)                (* select answer (r, w, e; h = []); poll2 answer: POLLIN, POLLOUT, POLLPRI, HUP|ERR|NVAL *)
+| ASel (r w e : list fdt)                  (* select.select answer *)
+| APoll2 (l : list (fdt * (bool * bool) * (bool * bool))) (* pollster.poll answer, in the order returned: fd, (POLLIN, POLLOUT), (POLLPRI, HUP|ERR|NVAL) *)
 | AExpt (r : expt_ans)                     (* getsockopt(SO_ERROR) in handle_expt_event *)
 | AApp (a : app_act)
 | ABufLen (n : nat)                        (* what the closed buffers still report as their length (strbuf stage keeps it) *)
@@ -126,7 +127,8 @@ Inductive evk := EvRead | EvWrite | EvExpt.
 Inductive instr :=
 (* -- the loop: server.run / wasyncore.loop / poll / poll2 *)
 | IPoll                         (* `while map:` test; list(map.items()); readable()/writable() of every entry (maintenance inside the listener's readable) *)
-| ISelect (r w e : list fdt)    (* select.select(r, w, e) / pollster.poll() *)
+| ISelect (r w e : list fdt)    (* select.select(r, w, e) / pollster.poll() is CALLED: a closed descriptor is refused at once *)
+| ISelWait (r w e : list fdt)   (* ... and returns *)
 | IDisp (k : evk) (f : fdt)     (* poll: obj = map.get(fd); read(obj) / write(obj) / _exception(obj) *)
 | IDisp2 (f : fdt) (rd wr pri hup : bool) (* poll2: obj = map.get(fd); readwrite(obj, flags) *)
 | IRwClose (f : fdt)            (* readwrite: `if flags & (POLLHUP|POLLERR|POLLNVAL): obj.handle_close()` *)
@@ -396,6 +398,11 @@ Definition write_soon (c : chan) (n : nat) : list instr :=
 (* ---------------------------------------------------------------------- *)
 (** * One instruction *)
 
+Definition p2_instr_of (mk : fdt -> bool -> bool -> bool -> bool -> instr)
+    (p : fdt * (bool * bool) * (bool * bool)) : instr :=
+  match p with (f, (rd, wr), (pri, hup)) => mk f rd wr pri hup end.
+Definition p2_instr := p2_instr_of IDisp2.
+
 Inductive result :=
 | Blocked
 | Norm (s : state) (push : list instr) (ls : list label)
@@ -425,7 +432,15 @@ Definition map_empty (s : state) : bool :=
 Definition maint (x : chan_st) (m : bool) : chan_st :=
   if m && in_act x && (nreq x =? 0) then upd_flags x true (cwf x) else x.
 
-Definition min3 (a b c : nat) := Nat.min a (Nat.min b c).
+(* one entry of a pollster.poll() answer: the descriptor was registered, the reported
+   POLLIN/POLLPRI/POLLOUT bits were asked for, PRI and HUP|ERR|NVAL only on channels *)
+Definition p2_entry_ok (r w e : list fdt) (p : fdt * (bool * bool) * (bool * bool)) : bool :=
+  match p with (f, (rd, wr), (pri, hup)) =>
+    mem_fd f e && (negb rd || mem_fd f r) && (negb wr || mem_fd f w) && (negb pri || mem_fd f r)
+    && (negb (pri || hup) || is_chan_fd f)
+  end.
+Definition p2_ok (r w e : list fdt) (l : list (fdt * (bool * bool) * (bool * bool))) : bool :=
+  forallb (p2_entry_ok r w e) l.
 
 Definition exec (g : cfg) (t : tid) (i : instr) (a : answer) (s : state) : result :=
   let me := getth s t in
@@ -444,23 +459,23 @@ Definition exec (g : cfg) (t : tid) (i : instr) (a : answer) (s : state) : resul
   | ISelect r w e =>
     (* select.select raises EBADF for a closed descriptor; poll() reports POLLNVAL instead *)
     if negb (use_poll2 g) && negb (forallb (fd_open s) e) then Raise s (XOSError EBADF) []
-    else
-      match a with
-      | ASel rr ww ee hh =>
-        if use_poll2 g then
-          if subset_fd rr r && subset_fd ww w && subset_fd ee r && subset_fd hh e
-             && forallb is_chan_fd ee && forallb is_chan_fd hh then
-            Norm s (map (fun f => IDisp2 f (mem_fd f rr) (mem_fd f ww) (mem_fd f ee) (mem_fd f hh))
-                        (filter (fun f => mem_fd f rr || mem_fd f ww || mem_fd f ee || mem_fd f hh) e)
-                    ++ [IPoll]) []
+    else Norm s [ISelWait r w e] []
+  | ISelWait r w e =>
+      if use_poll2 g then
+        match a with
+        | APoll2 l =>
+          if p2_ok r w e l then Norm s (map p2_instr l ++ [IPoll]) []
           else Blocked
-        else
-          if subset_fd rr r && subset_fd ww w && subset_fd ee e && forallb is_chan_fd ee
-             && match hh with [] => true | _ => false end then
+        | _ => Blocked
+        end
+      else
+        match a with
+        | ASel rr ww ee =>
+          if subset_fd rr r && subset_fd ww w && subset_fd ee e && forallb is_chan_fd ee then
             Norm s (map (IDisp EvRead) rr ++ map (IDisp EvWrite) ww ++ map (IDisp EvExpt) ee ++ [IPoll]) []
           else Blocked
-      | _ => Blocked
-      end
+        | _ => Blocked
+        end
   | IDisp k f =>
     if fd_in_map s f then Norm s (event k f ++ [KWasyn f]) [] else Norm s [] []
   | IDisp2 f rd wr pri hup =>
@@ -853,7 +868,7 @@ Definition trace (g : cfg) (sched : list choice) : list label := snd (run_tr g s
 
 Definition wants (s : state) (t : tid) (i : instr) : bool :=
   match i with
-  | ISelect _ _ _ | IAccept | ISetOpts _ | IInitGso _ | IInitSbl _ | ICloseBufs _ | IApp _ | IErrTask _ => true
+  | ISelWait _ _ _ | IAccept | ISetOpts _ | IInitGso _ | IInitSbl _ | ICloseBufs _ | IApp _ | IErrTask _ => true
   | IRecv c | IExpt c => match sock (getc s c) with SOpen => true | _ => false end
   | IFlush c _ => negb (buf (getc s c) =? 0) && match sock (getc s c) with SOpen => true | _ => false end
   | _ => false
@@ -864,7 +879,7 @@ Definition final_release (l : option (tid * nat)) : bool :=
 
 Definition is_yield (s : state) (t : tid) (i : instr) : bool :=
   match i with
-  | ISelect _ _ _ | IAccept | ISetOpts _ | IInitGso _ | IInitSbl _
+  | ISelect _ _ _ | ISelWait _ _ _ | IAccept | ISetOpts _ | IInitGso _ | IInitSbl _
   | ITryAcqO _ | IAcqR _ | IRelR _ | KRelR _ | IWaitO _ | IWake _ _ | INotifyO _ | IPull _ | IAddTask _ => true
   | IAcqO c => match olock (getc s c) with Some (o, _) => negb (tid_eqb o t) | None => true end
   | IRelO c | KRelO c => final_release (olock (getc s c))
